@@ -146,3 +146,20 @@ package internal
 //@   call handleChanges#0: assert arg_key == key && len(arg_kvs) == len(resp.Kvs)
 //@   ensures handled == 1
 
+
+// Registry.Monitor on a key that is already watched: the new listener is registered with the watcher (under the cluster lock)
+// BEFORE the current values are replayed to it - an event arriving in between reaches it through the watcher, so it misses
+// nothing (registering after the replay would lose exactly those events); the values replayed are the watcher's current ones
+// and go to the new listener only
+//@ func (r *Registry) Monitor
+//@   property C13
+//@   flag callbacks_noheap
+//@   ghost at entry: reg = false
+//@   ghost at before Unlock#0: reg = ok && has(watcher.listeners, l)
+//@   call getCurrent#0: assert reg && arg_recv == c && arg_key == wkey
+//@   call OnAdd#*: assert reg && arg_recv == l
+//@   call monitor#0: assert arg_recv == c && arg_key == wkey && arg_l == l
+// (assumed at the call, stated: the cluster's watcher-table invariant that monitor requires - it holds for a new cluster and is
+// preserved by addListener, proved above - and the package's cool-down jitter being well-formed)
+//@   call monitor#0: assume c.watchers != nil && implies(inDom(c.watchers, wkey), c.watchers[wkey] != nil && c.watchers[wkey].values != nil) && mathx.UnstableOK(coolDownUnstable)
+//@   loop 0: invariant reg
